@@ -28,7 +28,7 @@ class CsvfileWriter(AbstractWriter):
         if path in (None, "", "-"):
             self.fp = sys.stdout
         else:
-            self.fp = open(path, "w", newline="")
+            self.fp = open(path, "w", newline="", errors="surrogateescape")
         self.lineterminator = lineterminator or "\r\n"
         for r, n in ((r"\r", "\r"), (r"\n", "\n"), (r"\t", "\t")):
             self.lineterminator = self.lineterminator.replace(r, n)
